@@ -99,8 +99,8 @@ def run(ctx, chk):
     openers = M(r"std::fs::OpenOptions::(write|append|create|create_new)|std::fs::File::(create|create_new|options)")
     sites = [(bid, root, b) for bid, root, b in O.callers_of(openers) if P.bodies[bid].krate == "rawdb"]
     bad = [(bid, b) for bid, root, b in sites if root not in (OPEN, ROPEN) and not O.private_part_of(root, {OPEN, ROPEN})]
-    if len(sites) < 4:
-        raise AnchorMissing("expected >= 4 write-open option calls in rawdb, found %d" % len(sites))
+    if len(sites) < 2:
+        raise AnchorMissing("expected >= 2 write-open option calls in rawdb, found %d" % len(sites))
     chk.oblige("B18.3 only_callers(rawdb: open-for-writing) = {open_with_min_len, Regions::open} [%d sites]" % len(sites),
                not bad, detail={"offenders": bad}, key="B18.3|only_callers|open-for-writing",
                msg="no other rawdb code may open the database files for writing (it would bypass the lock)")
